@@ -741,7 +741,9 @@ def e_IfExp(ctx, fr, path, node):
             if isinstance(a, Val) and isinstance(b, Val):
                 ann = a.ann if a.ann == b.ann else None
                 own = "imm" if (a.own == "imm" and b.own == "imm") else ("borrow" if "borrow" in (a.own, b.own) else "fresh")
-                yield path, Val(simp(z3.If(c, a.t, b.t)), ann, own=own, deep=a.deep and b.deep)
+                mv = Val(simp(z3.If(c, a.t, b.t)), ann, own=own, deep=a.deep and b.deep)
+                mv.root = a.root if a.root == b.root else None
+                yield path, mv
                 return
     for p, c in ev(ctx, fr, path, node.test):
         for q, tv in ctx.branch(p, ctx.truthy(p, c), f"ifexp@{node.lineno}"):
@@ -763,9 +765,13 @@ def to_str_term(ctx, p, v, node=None):
         return simp(z3.If(V.b(t) if smt.ctor(t) != "VBool" else t.arg(0), z3.StringVal("True"), z3.StringVal("False")))
     if k == "VNone":
         return z3.StringVal("None")
-    # opaque: str() of an arbitrary value is an uninterpreted function of the value
+    # dynamically typed: one term by cases; other kinds (floats, objects) are an uninterpreted function of x
     p.note("str(x) of a non-str/int/bool/None value is an uninterpreted function of x")
-    return ctx.func("py_str", V, smt.StrS)(t)
+    n = V.i(t)
+    return z3.If(V.is_VStr(t), V.s(t),
+           z3.If(V.is_VInt(t), z3.If(n >= 0, z3.IntToStr(n), z3.Concat(z3.StringVal("-"), z3.IntToStr(-n))),
+           z3.If(V.is_VBool(t), z3.If(V.b(t), z3.StringVal("True"), z3.StringVal("False")),
+           z3.If(V.is_VNone(t), z3.StringVal("None"), ctx.func("py_str", V, smt.StrS)(t)))))
 
 
 def e_JoinedStr(ctx, fr, path, node):
@@ -783,21 +789,6 @@ def e_JoinedStr(ctx, fr, path, node):
             if v.format_spec is not None or v.conversion not in (-1, 115):
                 raise Unsupported("format spec in f-string")
             for q, x in ev(ctx, fr, p, v.value):
-                if ctx.kind(x) is None and isinstance(x, Val):
-                    # dynamically typed: split on str / int / other so each path has a concrete rendering
-                    t = simp(x.t)
-                    done = False
-                    for r, tv in ctx.branch(q, V.is_VStr(t), "fstr.is_str"):
-                        if tv:
-                            yield from go(r, i + 1, acc + [simp(V.s(t))])
-                        else:
-                            for r2, tv2 in ctx.branch(r, z3.And(V.is_VInt(t)), "fstr.is_int"):
-                                if tv2:
-                                    n = V.i(t)
-                                    yield from go(r2, i + 1, acc + [simp(z3.If(n >= 0, z3.IntToStr(n), z3.Concat(z3.StringVal("-"), z3.IntToStr(-n))))])
-                                else:
-                                    yield from go(r2, i + 1, acc + [to_str_term(ctx, r2, x)])
-                    continue
                 yield from go(q, i + 1, acc + [to_str_term(ctx, q, x, node)])
     yield from go(path, 0, [])
 
@@ -906,7 +897,8 @@ def rec_lookup(ctx, p, rec: Val, key: Val, node=None, must=True):
                 res = V.VNone
             lit = smt.str_lit(V.s(kt)) if smt.ctor(kt) == "VStr" else None
             ann = ctx.rec_field_ann(rec.ann, lit)
-            return Val(simp(res), ann, own=rec.own if rec.own != "imm" else "imm", deep=rec.deep)
+            rv = Val(simp(res), ann, own=rec.own if rec.own != "imm" else "imm", deep=rec.deep, src=("item", rec, key))
+            return rv
     # opaque record
     if must:
         ctx.safety(p, smt.rhas(t, kt), "dict key present", _where(node))
@@ -932,11 +924,11 @@ def rec_store(ctx, p, rec: Val, key: Val, val: Val):
                     vals = list(vals)
                     vals[i] = val.t
                     nt = V.VRec(smt.seq_of_list(keys), smt.seq_of_list(vals))
-                    return Val(simp(nt), rec.ann, own=rec.own, deep=rec.deep and not (val.own == "borrow"))
+                    return _rooted(Val(simp(nt), rec.ann, own=rec.own, deep=rec.deep and not (val.own == "borrow")), rec)
                 if not z3.is_false(c):
                     raise Unsupported("record store with symbolic key")
             nt = V.VRec(smt.seq_of_list(list(keys) + [kt]), smt.seq_of_list(list(vals) + [val.t]))
-            return Val(simp(nt), rec.ann, own=rec.own, deep=rec.deep and not (val.own == "borrow"))
+            return _rooted(Val(simp(nt), rec.ann, own=rec.own, deep=rec.deep and not (val.own == "borrow")), rec)
     # opaque record: functional update with instantiated select/store axioms
     rset = ctx.func("rset", V, V, V, V)
     nt = rset(t, kt, val.t)
@@ -945,7 +937,13 @@ def rec_store(ctx, p, rec: Val, key: Val, val: Val):
     p.assume(V.is_VRec(nt))
     ctx.rset_terms = getattr(ctx, "rset_terms", [])
     ctx.rset_terms.append((nt, t, kt))
-    return Val(nt, rec.ann, own=rec.own, deep=rec.deep and not (val.own == "borrow"))
+    return _rooted(Val(nt, rec.ann, own=rec.own, deep=rec.deep and not (val.own == "borrow")), rec)
+
+
+def _rooted(v, parent):
+    v.root = parent.root
+    v.src = parent.src
+    return v
 
 
 def instantiate_rset(ctx, p, rec_t, key_t):
